@@ -99,7 +99,8 @@ Record mfn := mkmfn {
   m_ret : ty;
   m_locals : list (N * ty);
   m_body : list mstmt;
-  m_blocks : list block }.       (* carried through unchanged: instances share the CFG *)
+  m_blocks : list block;         (* carried through unchanged: instances share the CFG *)
+  m_env : bool }.                (* lowered as a closure: the first parameter is the environment *)
 
 Record mstruct := mkms { s_name : name; s_tparams : list N; s_fields : list ty }.
 Record inst := mkinst { i_base : N; i_args : list ty; i_name : name }.
@@ -158,8 +159,13 @@ Fixpoint all_some {A} (l : list (option A)) : option (list A) :=
   | None :: _ => None
   end.
 
+(* the parameters that are paired with the call arguments: since the repair "generic function
+   that captures" the environment parameter of a closure is left out (flag from the source) *)
+Definition paired_params (g : mfn) : list (N * ty) :=
+  if INFER_SKIPS_ENV && m_env g then tl (m_params g) else m_params g.
+
 Definition infer_type_args (g caller : mfn) (args : list marg) : option (list ty) :=
-  let r := unify_args (m_params g) (map (operand_type caller) args) [] in
+  let r := unify_args (paired_params g) (map (operand_type caller) args) [] in
   all_some (map (lookup_ty r) (m_tparams g)).
 
 (* collect_mono_requests *)
@@ -212,7 +218,7 @@ Definition instance_of (g : mfn) (n : N) (ta : list ty) : mfn :=
         (subst tp ta (m_ret g))
         (map (fun p => (fst p, subst tp ta (snd p))) (m_locals g))
         (map (subst_stmt tp ta) (m_body g))
-        (m_blocks g).
+        (m_blocks g) (m_env g).
 
 Definition has_inst (done : list inst) (n : N) (k : list ty) : bool :=
   existsb (fun i => (i_base i =? n) && tylist_eqb (key (i_args i)) k) done.
@@ -268,7 +274,7 @@ Definition rewrite_stmt (fs : list mfn) (insts : list inst) (caller : mfn) (s : 
 Definition rewrite_fn (fs : list mfn) (insts : list inst) (f : mfn) : mfn :=
   if is_generic f then f
   else mkmfn (m_name f) (m_tparams f) (m_params f) (m_ret f) (m_locals f)
-             (map (rewrite_stmt fs insts f) (m_body f)) (m_blocks f).
+             (map (rewrite_stmt fs insts f) (m_body f)) (m_blocks f) (m_env f).
 
 Definition monomorphize (p : mprog) : mprog :=
   let '(insts, newf) := mono_insts p in
